@@ -110,6 +110,10 @@ type Replica struct {
 	RootJournals int
 	RootAccounts int
 	rootPrev     map[string][]byte
+	dirtyMu      sync.Mutex
+	dirtyLate    [][]string // accounts still dirty at "exec.block.before_clear", one entry per offending block
+	DirtyLooks   int
+	rootExecs    int
 
 	// reader monitor (ReaderMon): what a concurrent reader of the chain ledger saw
 	readerMu       sync.Mutex
@@ -272,6 +276,9 @@ func Open(dir string, o Options) (r *Replica, err error) {
 	if err := ex.Start(); err != nil {
 		return nil, err
 	}
+	if o.RootMon {
+		r.watchDirty()
+	}
 	return r, nil
 }
 
@@ -357,9 +364,9 @@ type PipeBlock struct {
 	Local []bool
 }
 
-// ExecPipelined hands several blocks to the executor at once, as consensus does when it runs ahead: the executor
-// checks signatures of block n+2 and executes block n+1 while block n is still being committed. The results
-// come back in order. (No root monitor here: while the next block runs, dirty state is what there should be.)
+// ExecPipelined hands several blocks to the executor at once, as consensus does when it runs ahead: the
+// executor's signature stage works on the following blocks while its second stage executes and persists the
+// current one. The results come back in order. (No root monitor here.)
 func (r *Replica) ExecPipelined(blocks []PipeBlock) ([]*BlockResult, error) {
 	h0 := r.Height()
 	go func() {
